@@ -88,13 +88,17 @@ def _pv(e, params, carried, ok_calls, seen=frozenset(), depth=0):
         return _pv(e.operand, params, carried, ok_calls, seen, depth + 1)
     if isinstance(e, (ast.Tuple, ast.List)):
         return all(_pv(x, params, carried, ok_calls, seen, depth + 1) for x in e.elts)
-    if isinstance(e, ast.ListComp):
+    if isinstance(e, (ast.ListComp, ast.GeneratorExp, ast.SetComp)):
         tg = {n.id for g in e.generators for n in ast.walk(g.target) if isinstance(n, ast.Name)}
         return _pv(e.elt, params | tg, carried, ok_calls, seen, depth + 1)
+    if isinstance(e, ast.Dict):
+        return bool(e.values) and all(_pv(x, params, carried, ok_calls, seen, depth + 1) for x in e.values)
     if isinstance(e, ast.Subscript):
         return _pv(e.value, params, carried, ok_calls, seen, depth + 1)
     if isinstance(e, ast.IfExp):
         return _pv(e.body, params, carried, ok_calls, seen, depth + 1) and _pv(e.orelse, params, carried, ok_calls, seen, depth + 1)
+    if not isinstance(e, (ast.Constant, ast.Compare, ast.BoolOp)):
+        _UNKNOWN.append(norm(e)[:60])        # a form of expression this rule does not read
     return False
 
 
